@@ -59,6 +59,14 @@ pub fn gen(w: &mut impl Write, thorough: bool, seed: u64) {
         let mut p = ins(opc, 1, 0, 0, imm).to_vec(); p.extend(EXIT); emit(w, &p); } }
     for &opc in &[0xc3u8, 0xdb] { for &imm in I32 { for dst in [0u8, 9, 10, 11] { let mut p = ins(opc, dst, 1, -8, imm).to_vec(); p.extend(EXIT); emit(w, &p); } } }
     for &opc in SUPPORTED { for &off in O16 { let mut p = vec![]; p.extend(nop); p.extend(ins(opc, 1, 1, off, 16)); p.extend(nop); p.extend(EXIT); emit(w, &p); } }
+    // --- every opcode x every immediate class, with the fields the opcode does not use set as well (an instruction's meaning and its
+    //     acceptance must not depend on fields it does not use; the second half of a wide load carries garbage in its other fields)
+    for &opc in SUPPORTED { for &imm in I32 { for off in [0i16, 1] { for (d, sr) in [(1u8, 2u8), (0, 0), (9, 10)] {
+        if opc == 0xd4 || opc == 0xdc { continue; }
+        let mut p = vec![]; p.extend(nop); p.extend(ins(opc, d, sr, off, imm));
+        if opc == 0x18 { p.extend(ins(0, 3, 4, 7, imm.wrapping_mul(3))); }
+        p.extend(nop); p.extend(nop); p.extend(EXIT); emit(w, &p);
+    } } } }
     // --- last-instruction kinds -------------------------------------------------------------------------
     for opc in 0..=255u8 {
         for off in [0i16, -1, -2, -3, 1] { let mut p = vec![]; p.extend(nop); p.extend(nop); p.extend(ins(opc, 0, 0, off, 0)); emit(w, &p); }
